@@ -90,6 +90,7 @@ func (fx *FuncCtx) box(st *State, v Val, from types.Type) Val {
 	c := fx.freshConst("boxed_"+tname, SIfc)
 	fx.declFun("typeOf", []Sort{SIfc}, SInt)
 	if st != nil {
+		fx.linkPureMethods(st, c, v, from)
 		st.assume(Eq(app(SInt, "typeOf", c), IntLit(fx.eng.typeID(from))))
 		fx.declare("(declare-const nilIface Iface)")
 		st.assume(Not(Eq(c, Term{"nilIface", SIfc})))
